@@ -195,6 +195,36 @@ func (st *State) builtin(g *Goroutine, fr *Frame, name string, args []Value) Val
 			}
 		}
 		return nil
+	case "String": // unsafe.String(ptr, len)
+		p := args[0].(Pointer)
+		n := int(st.concrete(args[1]))
+		if n == 0 {
+			return ""
+		}
+		bs := make([]Value, n)
+		for i := 0; i < n; i++ {
+			bs[i] = p.obj.slots[p.off+i]
+		}
+		return st.mkString(bs)
+	case "SliceData":
+		sl := args[0].(Slice)
+		if sl.obj == nil {
+			return Pointer{}
+		}
+		return Pointer{obj: sl.obj, off: sl.off}
+	case "Slice": // unsafe.Slice(ptr, len)
+		p := args[0].(Pointer)
+		n := int(st.concrete(args[1]))
+		if p.obj == nil {
+			return Slice{nil_: true, len: uint64(0)}
+		}
+		return Slice{obj: p.obj, off: p.off, len: uint64(n), cap: n, esz: 1}
+	case "StringData":
+		str := args[0]
+		bs := st.strBytes(st.plainString(str))
+		sl := st.makeSlice(types.Typ[types.Uint8], len(bs), len(bs))
+		copy(sl.obj.slots, bs)
+		return Pointer{obj: sl.obj}
 	case "ssa:wrapnilchk":
 		if p, ok := args[0].(Pointer); ok && p.obj == nil {
 			st.rtPanic("value method called using nil pointer")
@@ -485,6 +515,64 @@ func init() {
 			res = st.andV(res, st.equal(types.Typ[types.Uint8], a.obj.slots[a.off+i], b.obj.slots[b.off+i]))
 		}
 		return res, stNext
+	})
+	V("Dump", func(st *State, g *Goroutine, fr *Frame, fn *ssa.Function, args []Value) (Value, status) {
+		if t, ok := args[1].(*Term); ok {
+			fmt.Printf("[dump %s] %s\n", argString(st, args[0]), printTermShort(t, 40))
+		} else {
+			fmt.Printf("[dump %s] %s\n", argString(st, args[0]), valueString(args[1]))
+		}
+		return nil, stNext
+	})
+	fsel := func(isMin bool) nativeFn {
+		return func(st *State, g *Goroutine, fr *Frame, fn *ssa.Function, args []Value) (Value, status) {
+			f64 := types.Typ[types.Float64]
+			var c Value
+			if isMin {
+				c = st.binop(token.LSS, f64, f64, args[1], args[0])
+			} else {
+				c = st.binop(token.GTR, f64, f64, args[1], args[0])
+			}
+			if b, ok := c.(bool); ok {
+				if b {
+					return args[1], stNext
+				}
+				return args[0], stNext
+			}
+			return st.tp.Ite(c.(*Term), st.toTerm(args[1], f64), st.toTerm(args[0], f64)), stNext
+		}
+	}
+	V("MinF", fsel(true))
+	V("MaxF", fsel(false))
+	V("LastUUID", func(st *State, g *Goroutine, fr *Frame, fn *ssa.Function, args []Value) (Value, status) {
+		for i := len(st.draws) - 1; i >= 0; i-- {
+			if st.draws[i].Tag == "uuid" {
+				s := st.makeSlice(types.Typ[types.Uint8], 16, 16)
+				for k, t := range st.draws[i].Sub {
+					s.obj.slots[k] = t
+				}
+				return s, stNext
+			}
+		}
+		st.unsupported("LastUUID without a uuid draw")
+		return nil, stEnd
+	})
+	V("UUIDsDiffer", func(st *State, g *Goroutine, fr *Frame, fn *ssa.Function, args []Value) (Value, status) {
+		var us [][]*Term
+		for _, d := range st.draws {
+			if d.Tag == "uuid" {
+				us = append(us, d.Sub)
+			}
+		}
+		if len(us) < 2 {
+			return true, stNext
+		}
+		a, b := us[len(us)-2], us[len(us)-1]
+		eq := st.tp.True
+		for i := range a {
+			eq = st.tp.And(eq, st.tp.Eq(a[i], b[i]))
+		}
+		return norm(st.tp.Not(eq)), stNext
 	})
 	V("Symbolic", func(st *State, g *Goroutine, fr *Frame, fn *ssa.Function, args []Value) (Value, status) {
 		return true, stNext
@@ -786,6 +874,13 @@ func init() {
 		"runtime.SetFinalizer", "runtime.KeepAlive", "runtime.Gosched", "runtime.GC", "(*sync.Pool).Put"} {
 		N(n, noop)
 	}
+	N("internal/abi.NoEscape", func(st *State, g *Goroutine, fr *Frame, fn *ssa.Function, args []Value) (Value, status) {
+		return args[0], stNext
+	})
+	N("(*internal/godebug.Setting).Value", func(st *State, g *Goroutine, fr *Frame, fn *ssa.Function, args []Value) (Value, status) {
+		return "", stNext
+	})
+	N("(*internal/godebug.Setting).IncNonDefault", noop)
 	N("(*sync.Pool).Get", func(st *State, g *Goroutine, fr *Frame, fn *ssa.Function, args []Value) (Value, status) {
 		// always miss: call New if set
 		p := args[0].(Pointer)
